@@ -7,6 +7,7 @@
 package refmodels
 
 import (
+	"crypto/sha256"
 	"fmt"
 	"math"
 	"sort"
@@ -120,9 +121,62 @@ func Normalise(q Matrix, w []float64) {
 	}
 }
 
+// pinned: fingerprint of each published table (sha256 over the IEEE-754 bits of the 190 exchangeabilities
+// of the lower triangle, row by row, then of the 20 frequencies), number of zero exchangeabilities and
+// their sum, taken from the pinned snapshot of the repository (commit 8c25132,
+// models/protein/matrices.go, identical to the file at the time the check was written). No independent
+// transcription of the PAML/FastME tables is available offline: the published matrices are taken to be
+// those of the pinned snapshot, any later change of an entry is reported.
+var pinned = map[string]struct {
+	sha   string
+	zeros int
+	sum   float64
+}{
+	"dayhoff": {"9cd94772d841b9750bf64916747e62ebdf7bfeeda61fe0bb764be3806316bcce", 34, 19140},
+	"jtt":     {"894c607fa58ee791d294484d3325e9f356344dd7a6d3e6b3e5976ea4dccdc482", 0, 18873},
+	"mtrev":   {"eaed4a0a4acf97141024d9c79884ee7bcd83b695492c37e4c7b069b9ff97baad", 0, 18999.989999999994},
+	"lg":      {"6f5ccb453b9952082871e0837fdd6ed28672e21f4c6bc6f0863457dcf8374507", 0, 194.22041400000009},
+	"wag":     {"e57eb3dac358345ab6a163d75aef5935b04d8c9716e95be67b51fccc4f668e07", 0, 18514.133089999999},
+	"hivb":    {"f422c96dc4355b0a47e2b8665c520906c239edce0df9f88f14970b8b4639adfe", 0, 374.78780770999981},
+	"ab":      {"1e7af393097d490329222b666cf48705a47233424c56ea9067e0e45f2c22e821", 0, 309.08732261538762},
+}
+
+func fingerprint(s Matrix, pi []float64) (sha string, zeros int, sum float64) {
+	h := sha256.New()
+	for i := 0; i < 20; i++ {
+		for j := 0; j < i; j++ {
+			fmt.Fprintf(h, "%016x,", math.Float64bits(s[i][j]))
+			if s[i][j] == 0 {
+				zeros++
+			}
+			sum += s[i][j]
+		}
+	}
+	for _, p := range pi {
+		fmt.Fprintf(h, "%016x;", math.Float64bits(p))
+	}
+	return fmt.Sprintf("%x", h.Sum(nil)), zeros, sum
+}
+
 // ProtData returns the exchangeabilities and the model frequencies of an empirical protein model as
-// exported by goalign (state order A R N D C Q E G H I L K M F P S T W Y V)
+// exported by goalign (state order A R N D C Q E G H I L K M F P S T W Y V), after checking that they are
+// the published tables (fingerprint of the pinned snapshot)
 func ProtData(name string) (s Matrix, pi []float64, err error) {
+	if s, pi, err = protTable(name); err != nil {
+		return
+	}
+	key := name
+	if key == "dayoff" {
+		key = "dayhoff"
+	}
+	want := pinned[key]
+	if sha, zeros, sum := fingerprint(s, pi); sha != want.sha {
+		return nil, nil, fmt.Errorf("the exchangeabilities/frequencies of %s are not the published table any more (pinned snapshot 8c25132: %d zero exchangeabilities, sum %.10g; now %d zeros, sum %.10g)", name, want.zeros, want.sum, zeros, sum)
+	}
+	return
+}
+
+func protTable(name string) (s Matrix, pi []float64, err error) {
 	var at func(i, j int) float64
 	switch name {
 	case "dayhoff", "dayoff":
